@@ -44,6 +44,9 @@ type scanner struct {
 
 	logger      *slog.Logger
 	renewCancel context.CancelFunc
+	// errReported is set once Next has returned an error other than io.EOF,
+	// after that Next only returns io.EOF
+	errReported bool
 }
 
 func (s *scanner) fetch() ([]*pb.Result, error) {
@@ -173,6 +176,10 @@ func (s *scanner) Next() (*hrpc.Result, error) {
 	select {
 	case <-s.rpc.Context().Done():
 		s.Close()
+		if s.errReported {
+			return nil, io.EOF
+		}
+		s.errReported = true
 		return nil, s.rpc.Context().Err()
 	default:
 	}
@@ -181,6 +188,7 @@ func (s *scanner) Next() (*hrpc.Result, error) {
 		// if client handles partials, just return it
 		result, err = s.peek()
 		if err != nil {
+			s.errReported = s.errReported || err != io.EOF
 			return nil, err
 		}
 		s.shift()
@@ -196,6 +204,7 @@ func (s *scanner) Next() (*hrpc.Result, error) {
 		}
 		if err != nil {
 			// return whatever we have so far and the error
+			s.errReported = s.errReported || err != io.EOF
 			return toLocalResult(result), err
 		}
 
